@@ -127,23 +127,24 @@ Proof. exact state_wf_process. Qed.
 Print Assumptions C19_wf_invariant.
 
 (** Non-vacuity: two exchanges, three instruments (two underlyings); orders in all four states;
-    long, short and no position; price known and unknown. *)
+    long, short and no position; price from the L1 book (volume-weighted mid 51 = (48*1 + 52*3)/4,
+    preferred over the last trade 99), from the last trade, and unknown (one-sided book). *)
 Definition c19_key (e i c : N) : key := mkKey e i 7 c.
 Definition c19_order (e i c : N) (st : ostate) : order := mkOrder (c19_key e i c) Buy 100 2 Limit GTD st.
 Definition c19_state : state :=
   mkState false [LOpen []; LOpen []]
     [ mkInst 0 0 1 [(1, c19_order 0 0 1 OIF); (2, c19_order 0 0 2 (OOpen (mkMeta 12 5 1)));
                     (3, c19_order 0 0 3 (CIF None)); (4, c19_order 0 0 4 (CIF (Some (mkMeta 14 6 0))))]
-             (Some (mkPos 0 Buy 15)) (Some (3, 50)%Z);
-      mkInst 0 2 1 [(1, c19_order 0 1 1 (OOpen (mkMeta 21 5 0)))] (Some (mkPos 1 Sell 4)) None;
-      mkInst 1 3 4 [(5, c19_order 1 2 5 OIF)] (Some (mkPos 2 Sell 7)) (Some (1, 60)%Z) ].
+             (Some (mkPos 0 Buy 15)) (mkMD (mkL1 2 (Some (48, 3)%Z) (Some (52, 1)%Z)) (Some (3, 99)%Z));
+      mkInst 0 2 1 [(1, c19_order 0 1 1 (OOpen (mkMeta 21 5 0)))] (Some (mkPos 1 Sell 4)) (mkMD (mkL1 0 (Some (10, 1)%Z) None) None);
+      mkInst 1 3 4 [(5, c19_order 1 2 5 OIF)] (Some (mkPos 2 Sell 7)) (mkMD (mkL1 0 None None) (Some (1, 60)%Z)) ].
 Example C19_nonvacuous :
   state_wf c19_state = true /\
   cancel_requests (FExchanges [0]) (insts c19_state) =
     [mkCReq (c19_key 0 0 1) None; mkCReq (c19_key 0 0 2) (Some 12); mkCReq (c19_key 0 1 1) (Some 21)] /\
   cancel_requests (FUnderlyings [(3, 4)]) (insts c19_state) = [mkCReq (c19_key 1 2 5) None] /\
   snd (default_close 9 (fun i => 1000 + i) c19_state FNone) =
-    [mkOReq (mkKey 0 0 9 1000) (mkROpen Sell 50 15 Market IOC);
+    [mkOReq (mkKey 0 0 9 1000) (mkROpen Sell 51 15 Market IOC);
      mkOReq (mkKey 1 2 9 1002) (mkROpen Buy 60 7 Market IOC)] /\
   let s' := fst (action (default_close 9 (fun i => 1000 + i)) c19_state (CCancelOrders (FInstruments [0]))) in
   mbox (links s') 0 = [XCancel (mkCReq (c19_key 0 0 1) None); XCancel (mkCReq (c19_key 0 0 2) (Some 12))] /\
